@@ -9,7 +9,7 @@ import sys, os, json, subprocess, time, re, hashlib, shutil
 
 ROOT = os.path.dirname(os.path.abspath(__file__))
 REPO = os.environ.get("VERIF_REPO", "/repo")
-BUILD = os.path.join(ROOT, ".build")
+BUILD = os.environ.get("VERIF_BUILD", os.path.join(ROOT, ".build"))
 IBEX_B = os.path.join(BUILD, "ibex")
 LEAN = os.path.join(ROOT, "lean")
 DRIVER = os.path.join(LEAN, ".lake", "build", "bin", "driver")
@@ -258,8 +258,9 @@ def main():
     seed = int(os.environ.get("VERIF_SEED", "1"))
     cfg = PROPS[pid]
     t0 = time.time()
-    os.makedirs(os.path.join(ROOT, "evidence"), exist_ok=True)
-    os.makedirs(os.path.join(ROOT, "replays"), exist_ok=True)
+    OUT = os.environ.get("VERIF_OUT", ROOT)   # (experiments on seeded defects write elsewhere)
+    os.makedirs(os.path.join(OUT, "evidence"), exist_ok=True)
+    os.makedirs(os.path.join(OUT, "replays"), exist_ok=True)
     known = load_known()
     violations = []      # (what, replay_dict, found_input: bool)
     known_hits = {}
@@ -339,7 +340,7 @@ def main():
         print("KNOWN-FINDING: property=%s %s" % (pid, k["what"]))
     rc = 0
     for i, (what, rp, found) in enumerate(violations):
-        path = os.path.join(ROOT, "replays", "%s-%d-%d.json" % (pid, seed, i))
+        path = os.path.join(OUT, "replays", "%s-%d-%d.json" % (pid, seed, i))
         json.dump(rp, open(path, "w"), indent=1)
         print("VIOLATION property=%s replay=%s%s" % (pid, path, "" if found else " no-failing-input-found"))
         rc = 1
@@ -362,7 +363,7 @@ def main():
         "assumptions": cfg.get("assumptions", []),
         "wall_s": round(wall, 2), "violations": len(violations),
     }
-    json.dump(ev, open(os.path.join(ROOT, "evidence", pid + ".json"), "w"), indent=1)
+    json.dump(ev, open(os.path.join(OUT, "evidence", pid + ".json"), "w"), indent=1)
     print("%s tier=%s seed=%d: obligations %d/%d, %d evaluations (%d distinct non-trivial), %d violation(s), %d known finding(s), %.1fs"
           % (pid, tier, seed, discharged, obligations, stats["evaluations"], len(nontrivial), len(violations), len(known_hits), wall))
     return rc
